@@ -45,7 +45,7 @@ def generate(tier, seed):
             srcs[0] = dict(fitcase.gen_source(rng, nb, flags=[1] * nb), name='src_00')
             nmin = min(nmin, nb)
         c.pop('src')
-        c.update(kind='fit', sources=srcs, nmin=nmin, sel=rng.choice(SELS[:7]), convolved=rng.random() < 0.5,
+        c.update(kind='fit', sources=srcs, nmin=nmin, sel=rng.choice(SELS[:7] + [['A', None]]), convolved=rng.random() < 0.5,
                  blank_at=(rng.randint(1, nl) if rng.random() < 0.25 else None))
         c['bad_at'] = rng.randint(0, nl - 1) if (c['blank_at'] is None and rng.random() < 0.15) else None
         cases.append(c)
@@ -60,7 +60,7 @@ def generate(tier, seed):
     for k in range(nh):
         tab = c09.generate('quick', seed * 1000 + k)[0]   # a parameter table + ranked sources from the C09 generator
         nsrc = rng.randint(1, 3)
-        ops = [[rng.choice(FUNCS), rng.choice(SELS)] for _ in range(rng.randint(1, 3))]
+        ops = [[rng.choice(FUNCS), rng.choice(SELS + [['A', None]])] for _ in range(rng.randint(1, 3))]
         nm = len(tab['table']['names'])
         sources = []
         for s in range(nsrc):
@@ -109,7 +109,7 @@ def _impl_fit(case):
             return dict(refused=str(e)[:100])
         got = fitutil.read_all(out, with_meta=True) if os.path.getsize(out) else []
         # object interface on the same parsed lines
-        fitter = fitcase.make_fitter(d, dict(case, src=None))
+        fitter = fitcase.make_fitter(d, dict(case, src=None), use_memmap=True)      # what fit() itself does (float32 memory maps for version-2 packages)
         want, kinds = [], []
         for l in lines:
             try:
